@@ -134,6 +134,7 @@ def run_cases(ctx, cases, use_model=True, procs=1):
             model_bad.setdefault(ci, []).extend(bad)
     res.extra['model_lines'] = len(lines)
     res.extra['model_lines_skipped_ill_conditioned'] = skipped
+    n_shrunk = 0
     for ci, (case, (fails, ls, info)) in enumerate(zip(cases, evals)):
         N = info.get('N') or 0
         nontrivial = case['d'] >= 2 and (N >= 2 or case['part'] in ('gmres', 'gs', 'ops'))
@@ -163,7 +164,8 @@ def run_cases(ctx, cases, use_model=True, procs=1):
             res.fail('correspondence', 'harness-exception', f[2], case)
         if prop:
             sigs = {f[1] for f in prop}
-            small = shrink_case(case, sigs) if len(prop) and ctx is not None else case
+            n_shrunk += 1
+            small = shrink_case(case, sigs) if n_shrunk <= 5 else case
             seen = set()
             for f in prop:
                 if f[1] not in seen:
@@ -190,7 +192,7 @@ def load_corpus():
 
 def run(ctx):
     rng = ctx.sub_rng('cases')
-    n = 520 if ctx.quick else 12000
+    n = 800 if ctx.quick else 12000
     cases = load_corpus() + gen_cases(rng, n)
     return run_cases(ctx, cases, use_model=True, procs=8 if ctx.quick else 16)
 
